@@ -33,7 +33,7 @@ def run(ctx):
     searchsem.FILES[:] = FILES
     runs = [("TestVerif_C04_Replay", {"VERIF_IN": inp}),
             ("TestVerif_C04_Random", {"VERIF_CORPORA": ctx.pick(16, 200)}),
-            ("TestVerif_C04_Random", {"VERIF_CORPORA": ctx.pick(12, 120), "VERIF_CONCURRENT": 1})]
+            ("TestVerif_C04_Random", {"VERIF_CORPORA": ctx.pick(12, 48), "VERIF_CONCURRENT": 1})]
     total = searches = nt = 0
     for i, (test, env) in enumerate(runs):
         race = ctx.thorough and env.get("VERIF_CONCURRENT") == 1
